@@ -199,6 +199,72 @@ def rule_r2(ctx: Ctx) -> None:
     ctx.floor("C19.R2", n, 4, "weight stores / normalisation call")
 
 
+def rule_r4(ctx: Ctx) -> None:
+    """The class decorators that write grammar metadata (weight, abstract) share one per-class dict: applied in either order to
+    a model class, both entries are there afterwards - a decorator that replaces the dict drops what the other one declared."""
+    from ..modelinterp import Budget, Interp, LocalFn, Obj, Sym, UNKNOWN, _NONE
+    prog = ctx.prog
+    wf = prog.functions.get("geneticengine.grammar.decorators:weight")
+    af = prog.functions.get("geneticengine.grammar.decorators:abstract")
+    if wf is None or af is None:
+        raise AnalysisError("anchor function missing: geneticengine.grammar.decorators weight / abstract")
+
+    def atom(it, e, env):
+        if isinstance(e, ast.Attribute) and e.attr == "__dict__":
+            b = it.ev(e.value, env, 9)
+            if isinstance(b, Obj):
+                return b.fields          # the live namespace of the model class
+        return None
+
+    def call_model(it, call, env, args, kwargs):
+        nm = call_name(call)
+        if nm == "setattr" and len(args) == 3 and isinstance(args[0], Obj) and isinstance(args[1], str):
+            args[0].fields[args[1]] = args[2]
+            return _NONE
+        if nm == "getattr" and len(args) >= 2 and isinstance(args[0], Obj) and isinstance(args[1], str):
+            return args[0].fields.get(args[1], args[2] if len(args) > 2 else UNKNOWN)
+        if nm == "hasattr" and len(args) == 2 and isinstance(args[0], Obj):
+            return args[1] in args[0].fields
+        if nm == "is_builtin":
+            return False
+        return None
+
+    def apply_weight(K):
+        it = Interp(prog, None, atom, call_model, max_depth=14, max_traces=4)
+        runs = it.run(wf, {wf.params[0]: 2.5})
+        rv = runs[0][1] if len(runs) == 1 else None
+        if not isinstance(rv, LocalFn):
+            return None
+        it.fn_stack = [wf]
+        it.call_local(rv, [K], {}, 1, None)
+        return K
+
+    def apply_abstract(K):
+        it = Interp(prog, None, atom, call_model, max_depth=14, max_traces=4)
+        runs = it.run(af, {af.params[0]: K})
+        if len(runs) != 1 or runs[0][2]:
+            return None
+        return it.envs[0].get(af.params[0])
+
+    for label, order in (("@abstract above @weight", (apply_weight, apply_abstract)), ("@weight above @abstract", (apply_abstract, apply_weight))):
+        K = Obj("type:K", {})
+        try:
+            for step in order:
+                K = step(K) if K is not None else None
+        except Budget:
+            K = None
+        construct = f"class decorators, {label}: the declared weight and the abstract flag are both in the class's metadata"
+        if K is None:
+            ctx.ob("C19.R4", wf, wf.node, construct, None, "the decorators are not followed in the model")
+            continue
+        meta = K.fields.get("__gengy__")
+        ok = isinstance(meta, dict) and meta.get("weight") == 2.5 and meta.get("abstract") is True
+        ctx.ob("C19.R4", af if "weight" not in (meta or {}) else wf, None, construct, ok if isinstance(meta, dict) else None,
+               "" if ok else (f"after both decorators the metadata is {meta!r}: "
+                              + ("the declared weight is gone (the later decorator replaced the dict), so the class counts as weight one and the declared ratios are lost"
+                                 if isinstance(meta, dict) and "weight" not in meta else "an entry is missing")))
+
+
 def rule_r3(ctx: Ctx) -> None:
     prog, res = ctx.prog, ctx.res
     from .c18 import check_choice_weighted
@@ -242,6 +308,8 @@ def rule_r3(ctx: Ctx) -> None:
 
 def run(ctx: Ctx) -> None:
     ctx.rule("C19.R1", "update_weights: per-rule reset / sum / divide / write-back; unweighted default exactly 1.0")
+    ctx.rule("C19.R4", "the metadata decorators (weight, abstract) compose in either order: a declared weight survives")
+    rule_r4(ctx)
     ctx.rule("C19.R2", "weights written only by the decorator and update_weights; extract_grammar normalises when weighted")
     ctx.rule("C19.R3", "zero-weight option unreachable in choice_weighted; weights aligned with alternatives at every call site")
     rule_r1(ctx)
